@@ -233,6 +233,21 @@ def emitPilComps : List (String × Inst) → List String
   | (_, i) :: r => emitPilInst i ++ emitPilComps r
 end
 
+/-- the name `System.output_nupack` gives the connector of a signal entry, after the signal's own name -/
+def SigEntry.connName (e : SigEntry) : String :=
+  match e.port with
+  | .seq i _ => e.comp ++ "-" ++ i.name
+  | .sig n => e.comp ++ "-" ++ n
+
+/-- `done` set of `System.output_nupack`: a port bound to one signal twice in the same orientation (as an input and as
+    an output of the instance) gets one connector (repair F17) -/
+def dedupEntriesAux : List (String × Bool) → List SigEntry → List SigEntry
+  | _, [] => []
+  | seen, e :: r =>
+    if seen.contains (e.connName, e.wc) then dedupEntriesAux seen r
+    else e :: dedupEntriesAux ((e.connName, e.wc) :: seen) r
+def dedupEntries (es : List SigEntry) : List SigEntry := dedupEntriesAux [] es
+
 mutual
 def emitDesInst : Inst → List String
   | .comp st => Comp.emitDes st
@@ -249,7 +264,7 @@ def emitDesSys : SysSt → List String
        "sequence " ++ wcName ++ " = " ++ String.ofList (List.replicate len 'N'),
        "structure " ++ sname ++ "-_Self = " ++ duplex,
        sname ++ "-_Self : " ++ wcName ++ " " ++ sname] ++
-      entries.flatMap (fun e =>
+      (dedupEntries entries).flatMap (fun e =>
         let (sigName, seqs) := match e.port with
           | .seq i bases =>
             if i.isSup then (e.comp ++ "-" ++ i.name,
